@@ -654,6 +654,7 @@ func checkC17(r *Result) {
 		}
 		r.check(nDec >= 3, "FRESH-DECODE", "decode sites inside loops over votes", "-", fmt.Sprint(nDec))
 	}
+	checkRecoveredAddress(r)
 	checkPreRoles(r, pre, proc, prep)
 	r.minCount("PRE-ROLES", 7)
 	r.minCount("FRESH-DECODE", 4)
@@ -967,4 +968,74 @@ func checkPreRoles(r *Result, pre, proc, prep *ssa.Function) {
 		}
 	}
 	r.check(nret >= 1 && nstore >= 1, rule, "(*app.ProposalHandler).PrepareProposalHandler # returns and Txs stores to decide", P.Pos(prep.Pos()), fmt.Sprintf("%d returns, %d stores", nret, nstore))
+}
+
+// checkRecoveredAddress: the address EVMAddressFromSignatures hands back is a candidate of signature A that a test on the
+// path found equal to a candidate of signature B -- the same element that was compared, not its neighbour.
+func checkRecoveredAddress(r *Result) {
+	P := r.P
+	const rule = "REGISTER-ONCE"
+	fn := P.Func("(x/bridge/keeper.Keeper).EVMAddressFromSignatures")
+	if fn == nil {
+		r.broken("anchor EVMAddressFromSignatures does not resolve")
+		return
+	}
+	r.fn(FuncName(fn))
+	var recA ssa.Value // first TryRecoverAddressWithBothIDs call: candidates of signature A
+	for _, cs := range P.CallSitesIn(fn) {
+		if cs.Callee == "(x/bridge/keeper.Keeper).TryRecoverAddressWithBothIDs" && recA == nil {
+			recA, _ = cs.Instr.(ssa.Value)
+		}
+	}
+	tm := NewTermer()
+	// element of the candidate list of A: index(ext:0(recA), idx)
+	elemOfA := func(t *Term) *Term {
+		for (t.Op == "load" || strings.HasPrefix(t.Op, "call:(github.com/ethereum/go-ethereum/common.Address).Bytes")) && len(t.Args) >= 1 {
+			t = t.Args[0]
+		}
+		if t.Op == "index" && len(t.Args) == 2 {
+			b := t.Args[0]
+			for b.Op == "load" && len(b.Args) == 1 {
+				b = b.Args[0]
+			}
+			if b.Op == "ext:0" && len(b.Args) == 1 && b.Args[0].V == recA {
+				return t
+			}
+		}
+		return nil
+	}
+	sameIdx := func(a, b *Term) bool {
+		if a.V != nil && a.V == b.V {
+			return true
+		}
+		return strings.HasPrefix(a.Op, "const:") && a.Op == b.Op
+	}
+	n := 0
+	for _, ret := range allReturns(fn) {
+		if len(ret.Results) != 2 || DefinitelyFails(ret) {
+			continue
+		}
+		n++
+		e := elemOfA(tm.Of(unspill(ret.Results[0], ret)))
+		if e == nil {
+			r.check(false, rule, "(x/bridge/keeper.Keeper).EVMAddressFromSignatures # the address handed back is the candidate that was found in both signatures", P.Pos(ret.Pos()), "returned: "+clip(tm.Of(ret.Results[0]).String(), 160))
+			continue
+		}
+		idx := e.Args[1]
+		ps := AnalyzePaths(fn, []Atom{{Name: "matched", Cond: func(rel *Term) (bool, bool) {
+			if rel.Op != "call:bytes.Equal" || len(rel.Args) != 2 {
+				return false, false
+			}
+			for k := 0; k < 2; k++ {
+				if a := elemOfA(rel.Args[k]); a != nil && sameIdx(a.Args[1], idx) && elemOfA(rel.Args[1-k]) == nil {
+					return true, true
+				}
+			}
+			return false, false
+		}}})
+		bad := ps.Require(ret, func(v map[string]bool) bool { return v["matched"] })
+		r.check(len(bad) == 0, rule, "(x/bridge/keeper.Keeper).EVMAddressFromSignatures # the address handed back is the candidate that was found in both signatures", P.Pos(ret.Pos()),
+			fmt.Sprintf("returned candidate %s of signature A under %v", idx.Brief(), bad))
+	}
+	r.check(n >= 1 && recA != nil, rule, "(x/bridge/keeper.Keeper).EVMAddressFromSignatures # success returns to decide", P.Pos(fn.Pos()), fmt.Sprint(n))
 }
